@@ -63,6 +63,16 @@ CHECKS["C10"] = dict(
     technique="Lean 4 proof over a hand-written model (well-founded recursion, invariant) + correspondence with the implementation",
     design="§4 C10", note=NOTE_BASE + " Hand model tied to the code only on the executed cases (counts in the evidence).")
 
+CHECKS["C15"] = dict(
+    text=("Machine-checked theorems (Props/C15.lean) about hand models of the conversions (Model/Conv.lean; GMP's truncated "
+          "remainder and get_ui modelled on Int) and the generated toU64/equal/is* : every integer of any sign and magnitude "
+          "converts to its residue, canonically; fromS64/fromS32 on all two's-complement values; toU64 canonical; toS64 centred; "
+          "toS32 succeeds exactly on [-2^31, 2^31); the three round trips (incl. INT32_MIN); predicates depend only on the "
+          "residue class. The pinned tree violated this (D1, D2: found with replays by this check, repaired by fix: commits). "
+          "Tie: correspondence with the compiled conversions incl. GMP, radix 2..36, up to 400-bit integers."),
+    technique="Lean 4 proof over a hand-written model (Int/BitVec arithmetic) + correspondence with the implementation",
+    design="§4 C15", note=NOTE_BASE + " GMP numeral parsing and mpz arithmetic are modelled, not verified.")
+
 NOT_YET = {
 }
 
